@@ -105,8 +105,14 @@ def _work(args):
     repo, specs = _G['repo'], _G['specs']
     eng, status, detail, results, gen_s = run_unit(repo, specs, unit, timeout_ms)
     obls = []
+    from .concretize import concretize
+    nconc = 0
     for o in results:
-        obls.append({'name': o.name, 'kind': o.kind, 'result': o.result, 'backend': o.backend, 'solver_s': round(o.time, 3),
+        conc = None
+        if o.result == 'failed' and o.kind != 'canary' and nconc < 3:
+            conc = concretize(eng, specs, repo, unit, o)
+            nconc += 1
+        obls.append({'concrete': conc, 'name': o.name, 'kind': o.kind, 'result': o.result, 'backend': o.backend, 'solver_s': round(o.time, 3),
                      'trace': o.trace[-10:], 'model': model_inputs(o), 'detail': o.detail,
                      'goal': str(o.goal)[:400] if o.result != 'proved' else ''})
     return {'unit': unit, 'label': unit_label(unit), 'status': status, 'detail': detail, 'gen_s': round(gen_s, 2),
